@@ -223,6 +223,9 @@ MUTANTS = [
     ("len-then-index-separate-len", "C19", "R-LEN-THEN-INDEX", "run_index", "crates/runtime/src/vm.rs",
      "                let data = l.data();\n                let index = self.validate_index(n, Some(data.len()))?;\n                data[index].clone()",
      "                let index = self.validate_index(n, Some(l.len()))?;\n                l.data()[index].clone()"),
+    ("num-wrap-pow-exponent-as-u32", "C01", "R-NUM-WRAP", "KNumber::pow", "crates/runtime/src/types/number.rs",
+     "                } else if let Ok(exponent) = u32::try_from(b) {\n                    I64(a.wrapping_pow(exponent))\n                } else {",
+     "                } else if b != i64::MAX {\n                    I64(a.wrapping_pow(b as u32))\n                } else {"),
 ]
 
 
@@ -249,6 +252,9 @@ BENIGN = [
        "                        value_register,\n                        export_assignment || self.force_export_assignment(),\n                        ctx,\n                    )?;\n"),
       ("                            map_register,\n                            false,\n                            ctx,",
        "                            map_register,\n                            self.force_export_assignment(),\n                            ctx,")]),
+    ("benign-pow-exponent-guarded-cast", "C01", "crates/runtime/src/types/number.rs",
+     [("                } else if let Ok(exponent) = u32::try_from(b) {\n                    I64(a.wrapping_pow(exponent))\n                } else {",
+       "                } else if b <= u32::MAX as i64 {\n                    I64(a.wrapping_pow(b as u32))\n                } else {")]),
     ("benign-read-line-trim-end", "C06", "crates/runtime/src/core_lib/io.rs",
      [("                    let line = result.strip_suffix('\\n').unwrap_or(&result);\n                    line.strip_suffix('\\r').unwrap_or(line).into()",
        "                    let newline_bytes = if result.ends_with(\"\\r\\n\") {\n                        2\n                    } else if result.ends_with('\\n') {\n                        1\n                    } else {\n                        0\n                    };\n                    result[..result.len() - newline_bytes].into()")]),
